@@ -635,6 +635,18 @@ func TestVerifC10(t *testing.T) {
 			c.WriteErrKind, c.WriteErrAfter, c.WriteErrMulticast = parts[1], fl.at, true
 			c.Steps = append(c.Steps, advStep{At: fl.at, Kind: "rs", Src: "::"})
 			expect = map[string]string{"nobufs": "redial", "syscall": "redial", "perm": "error", "other": "error", "op-nobufs": "redial", "op-acces": "error"}[parts[1]]
+		case "writeinit", "writeinit2":
+			// the failing transmission is the initial RA of a connection — the first
+			// one, or the one dialled after a link event at fl.at — and the cause is not
+			// recoverable (permission, not a system call error), for good: the task ends
+			// with that error; it is not dialled again, let alone without bound
+			c.UnicastOnly = false
+			c.WriteErrKind, c.WriteErrInitGen = parts[1], 1
+			if parts[0] == "writeinit2" {
+				c.WriteErrInitGen = 2
+				c.Steps = append(c.Steps, advStep{At: fl.at, Kind: "link"})
+			}
+			expect = "initerror"
 		case "write", "writepending", "writeall":
 			c.WriteErrKind, c.WriteErrAfter = parts[1], fl.at
 			c.WriteErrAll = parts[0] == "writeall"
@@ -749,6 +761,33 @@ func TestVerifC10(t *testing.T) {
 			budget += 16*time.Second + c.StallFor - fl.at // until the stalled transmission has completed
 		}
 		switch expect {
+		case "initerror":
+			failIx, dialsAfter := -1, 0
+			for i, e := range ev {
+				if failIx < 0 && e.Kind == "write_end" && e.Err != "" {
+					failIx, faultT = i, e.T
+				}
+				if failIx >= 0 && e.Kind == "dial" {
+					dialsAfter++
+				}
+			}
+			if failIx < 0 {
+				r.Inconclusive(id, "the initial RA that was to fail was never transmitted")
+				return
+			}
+			if dialsAfter > 0 {
+				r.Violation(id, "redial-on-unrecoverable", fmt.Sprintf("the initial RA failed with the unrecoverable %q at %v and the interface was dialled %d more time(s)", parts[1], faultT, dialsAfter), det())
+				return
+			}
+			if returnT == vNever || returnT >= time.Duration(f.cancelT) {
+				r.Violation(id, "half-alive", fmt.Sprintf("the initial RA failed with the unrecoverable %q at %v and the task had not ended when it was cancelled at %v", parts[1], faultT, time.Duration(f.cancelT)), det())
+				return
+			}
+			if retErr == "" {
+				r.Violation(id, "error-swallowed", fmt.Sprintf("the task ended after its initial RA failed (%q) without reporting an error", parts[1]), det())
+				return
+			}
+			r.Count("initial_ra_failures_ending_the_task", 1)
 		case "redial":
 			if redialT == vNever {
 				cls := "half-alive"
@@ -859,7 +898,7 @@ func TestVerifC10(t *testing.T) {
 	}
 
 	kinds := []string{"read:syscall", "read:perm", "read:other", "read:eintr", "read:emfile", "read:op-netdown", "timeouts:1", "timeouts:2", "timeouts:3", "timeouts:4", "timeouts:5", "timeouts:6",
-		"timeoutsinv:1", "timeoutsinv:3", "timeoutsinv:4", "timeoutsinv:5", "spreadtimeouts:5", "spreadtimeouts:6", "spreadtimeouts:12", "timeoutssys:2", "timeoutssys:4", "timeoutssys:5", "timeoutssys:7", "writemc:nobufs", "writemc:perm", "writemc:other", "writemc:op-nobufs",
+		"timeoutsinv:1", "timeoutsinv:3", "timeoutsinv:4", "timeoutsinv:5", "spreadtimeouts:5", "spreadtimeouts:6", "spreadtimeouts:12", "timeoutssys:2", "timeoutssys:4", "timeoutssys:5", "timeoutssys:7", "writemc:nobufs", "writemc:perm", "writemc:other", "writemc:op-nobufs", "writeinit:perm", "writeinit:other", "writeinit:op-acces", "writeinit2:perm", "writeinit2:other", "writeinit2:op-acces",
 		"linkondial", "write:nobufs", "write:perm", "write:other", "write:op-nobufs", "write:op-acces", "writepending:nobufs", "writepending:other", "writeall:nobufs", "writeall:perm", "link", "watchclose", "spacing:link", "spacing:read", "stalledpeer:x"}
 	// the same read-side faults against a Monitor task
 	mreps := r.Pick(4, 150)
